@@ -129,6 +129,36 @@ def w_very_wide(jobs):
     return evs
 
 
+def stale_parent_cases():
+    """Trees whose ROOT carries a parent pointer to a node that does not list it (a copy of an inner branch keeps the original's
+    parent, remove_child leaves the pointer, the constructor takes parent= without attaching): still trees."""
+    from metapype.model.node import Node
+    evs = []
+    for nm in ("zzUnknownRoot", "dataset", "title", "metadata", "creator", ""):
+        for way in ("copy-of-inner-branch", "detached-with-remove_child", "constructor-parent-argument", "parent-setter"):
+            Node.store.clear()
+            holder = Node("eml")
+            if way == "constructor-parent-argument":
+                root = Node(nm, parent=holder)
+            else:
+                root = Node(nm)
+            root.add_child(Node("title", content="t"))
+            root.add_child(Node("zzUnknownChild"))
+            if way == "copy-of-inner-branch":
+                holder.add_child(root)
+                root = root.copy()
+            elif way == "detached-with-remove_child":
+                holder.add_child(root)
+                holder.remove_child(root)
+            elif way == "parent-setter":
+                root.parent = holder
+            ev = valtrace.observe_tree(root)
+            ev["desc"] = {"base": "root with a stale parent pointer", "root": nm, "how": way}
+            evs.append(ev)
+    Node.store.clear()
+    return evs
+
+
 def w_cases(seeds):
     from metapype.model.node import Node
     evs = []
@@ -196,6 +226,7 @@ def run(rep, tier, seed):
     n = 400 if tier == "quick" else 12000
     evs = [e for chunk in parallel(w_cases, [seed * 1000003 + i for i in range(n)]) for e in chunk]
     evs += [e for chunk in parallel(w_sweep, sorted(t.node_map)) for e in chunk]
+    evs += stale_parent_cases()
     widths = [1100, 2500] if tier == "quick" else [1100, 2500, 6000]
     evs += [e for chunk in parallel(w_very_wide, [(k, nm, w) for (k, nm) in VERY_WIDE for w in widths], chunk=1) for e in chunk]
     strip = lambda e: {k: v for k, v in e.items() if k != "desc"}  # noqa: E731
